@@ -21,35 +21,36 @@ type Shape struct {
 	Pre   map[string]string // files present before the script runs
 	Setup func(c *gosym.Ctx, in *oracle.Interp, sh *oracle.Shell)
 	// AssumeLits constrains the symbolic literals (e.g. small ranges for loop bounds / indices).
-	AssumeLits func(c *gosym.Ctx)
-	Tag        string // known-finding class suggestion for shape-level defects
+	AssumeLits   func(c *gosym.Ctx)
+	Tag          string                                        // known-finding class suggestion for shape-level defects
 	Mods         func(c *gosym.Ctx) map[string]*oracle.Program // imported files (path as written in the import)
-	Init         func(c *gosym.Ctx)                             // runs before the real code (e.g. hash-prefix classes)
-	ExpectReject bool                                           // the program is illegal: transpilation must fail
-	Concretize func(o *eqOutcome, m map[string]uint64) // fills stdin / pre-existing files of a counterexample
+	Init         func(c *gosym.Ctx)                            // runs before the real code (e.g. hash-prefix classes)
+	ExpectReject bool                                          // the program is illegal: transpilation must fail
+	Concretize   func(o *eqOutcome, m map[string]uint64)       // fills stdin / pre-existing files of a counterexample
 }
 
 type eqOutcome struct {
-	Shape    string
-	Kind     string // ok | excluded | inconclusive | diff
-	Why      string
-	Diff     string
-	Class    string
-	Src      string            // concrete source of the counterexample
-	Files    map[string]string
-	Expected string
-	ExpCode  int
-	ExpFiles map[string]string
-	Hazard   bool
-	Funcs    int
-	SymVars  int
-	Syntactic bool // all obligations discharged without a solver call
-	More     []eqOutcome // further counterexamples on the same path (one per character class)
-	Sub      string      // character class of the data bytes
-	Data     string
-	Stdin    string
-	Pre      map[string]string
+	Shape        string
+	Kind         string // ok | excluded | inconclusive | diff
+	Why          string
+	Diff         string
+	Class        string
+	Src          string // concrete source of the counterexample
+	Files        map[string]string
+	Expected     string
+	ExpCode      int
+	ExpFiles     map[string]string
+	Hazard       bool
+	Funcs        int
+	SymVars      int
+	Syntactic    bool        // all obligations discharged without a solver call
+	More         []eqOutcome // further counterexamples on the same path (one per character class)
+	Sub          string      // character class of the data bytes
+	Data         string
+	Stdin        string
+	Pre          map[string]string
 	ExpectReject bool
+	Probe        bool // not a counterexample found by the solver: an instance of a path ShSem could not interpret
 }
 
 type eqOpts struct {
@@ -100,12 +101,11 @@ func bashEquiv(r *Run, c *gosym.Ctx, sh Shape, o eqOpts) (out eqOutcome) {
 	if sh.AssumeLits != nil {
 		sh.AssumeLits(c)
 	}
-	var script, errText gosym.Str
-	var hasErr bool
-	gp := c.Try(func() { script, errText, hasErr = c.Transpile("/work/main.tsh", "bash") })
-
 	// reference evaluation
 	in := oracle.NewInterp(c)
+	if o.Target == "batch" {
+		in.Bits = 32
+	}
 	in.SetFiles(mods)
 	shl := oracle.NewShell(c)
 	shl.Stub = o.Stub
@@ -120,41 +120,24 @@ func bashEquiv(r *Run, c *gosym.Ctx, sh Shape, o eqOpts) (out eqOutcome) {
 	if sh.Setup != nil {
 		sh.Setup(c, in, shl)
 	}
-	if sh.ExpectReject {
-		if gp != nil {
-			out.Kind, out.Diff = "diff", "transpilation panicked: "+gp.Msg
-		} else if hasErr {
-			out.Kind = "ok"
-		} else {
-			out.Kind, out.Diff = "diff", "illegal program accepted"
-		}
-		if out.Kind == "diff" {
-			_, m := c.Sat()
-			out.Src = concretizeSource(src, m)
-			out.Files = map[string]string{}
-			for p, rp := range modRopes {
-				out.Files[p] = concretizeSource(rp, m)
-			}
-			out.ExpectReject = true
-		}
-		return
-	}
 	excluded, refUnsup := "", ""
-	func() {
-		defer func() {
-			if rec := recover(); rec != nil {
-				switch x := rec.(type) {
-				case oracle.Excluded:
-					excluded = x.Why
-				case oracle.RefUnsupported:
-					refUnsup = x.Msg
-				default:
-					panic(rec)
+	if !sh.ExpectReject {
+		func() {
+			defer func() {
+				if rec := recover(); rec != nil {
+					switch x := rec.(type) {
+					case oracle.Excluded:
+						excluded = x.Why
+					case oracle.RefUnsupported:
+						refUnsup = x.Msg
+					default:
+						panic(rec)
+					}
 				}
-			}
+			}()
+			in.Run(prog)
 		}()
-		in.Run(prog)
-	}()
+	}
 	if excluded != "" {
 		out.Kind, out.Why = "excluded", excluded
 		return
@@ -282,6 +265,39 @@ func bashEquiv(r *Run, c *gosym.Ctx, sh Shape, o eqOpts) (out eqOutcome) {
 		out.More = more
 		return true
 	}
+	// the real code; if the engine cannot interpret it on this path, one concrete instance is probed natively
+	c.ProbeFn = func(m map[string]uint64) interface{} {
+		x := mkOutcome("the engine cannot interpret the real code on this path: concrete probe of one instance", m)
+		x.Probe = true
+		return x
+	}
+	var script, errText gosym.Str
+	var hasErr bool
+	target := "bash"
+	if o.Target == "batch" {
+		target = "batch"
+	}
+	gp := c.Try(func() { script, errText, hasErr = c.Transpile("/work/main.tsh", target) })
+	c.ProbeFn = nil
+	if sh.ExpectReject {
+		if gp != nil {
+			out.Kind, out.Diff = "diff", "transpilation panicked: "+gp.Msg
+		} else if hasErr {
+			out.Kind = "ok"
+		} else {
+			out.Kind, out.Diff = "diff", "illegal program accepted"
+		}
+		if out.Kind == "diff" {
+			_, m := c.Sat()
+			out.Src = concretizeSource(src, m)
+			out.Files = map[string]string{}
+			for p, rp := range modRopes {
+				out.Files[p] = concretizeSource(rp, m)
+			}
+			out.ExpectReject = true
+		}
+		return
+	}
 	if gp != nil {
 		finish("transpilation panicked: " + gp.Msg)
 		return
@@ -301,9 +317,25 @@ func bashEquiv(r *Run, c *gosym.Ctx, sh Shape, o eqOpts) (out eqOutcome) {
 					shUnsup = x.Msg
 					return
 				}
+				if x, ok := rec.(oracle.BatUnsupported); ok {
+					shUnsup = x.Msg
+					return
+				}
 				panic(rec)
 			}
 		}()
+		if o.Target == "batch" {
+			bs := oracle.NewBatShell(c)
+			for _, l := range sh.Stdin {
+				bs.Stdin = append(bs.Stdin, gosym.Conc(l))
+			}
+			for p, content := range sh.Pre {
+				bs.Files[p] = gosym.Conc(content)
+			}
+			shOut, shStatus = bs.RunScript(script)
+			shl.Err = bs.Err
+			return
+		}
 		shOut, shStatus = shl.RunScript(script)
 	}()
 	var hazardAny *sym.Term
@@ -337,6 +369,14 @@ func bashEquiv(r *Run, c *gosym.Ctx, sh Shape, o eqOpts) (out eqOutcome) {
 		}
 	}
 	if shUnsup != "" {
+		// The script uses something outside the modelled Bash subset (for instance after a refactoring of a
+		// template). The path cannot be decided symbolically; one concrete instance of it is probed on the real bash.
+		res, m := c.Sat()
+		if res == sym.Sat {
+			out = mkOutcome("ShSem cannot interpret the script ("+shUnsup+"): concrete probe of one instance", m)
+			out.Probe = true
+			return
+		}
 		out.Kind, out.Why = "inconclusive", "ShSem: "+shUnsup
 		return
 	}
@@ -504,7 +544,13 @@ func (r *Run) handleEq(o eqOutcome, pre map[string]string, stdin string) {
 
 // handleEqTry returns false when the candidate does not reproduce on the real bash.
 func (r *Run) handleEqTry(o eqOutcome, pre map[string]string, stdin string) bool {
-	confirmed, what := confirmBash(r, o, pre, stdin)
+	var confirmed bool
+	var what string
+	if r.ID == "C05" {
+		confirmed, what = confirmBatch(r, o, pre, stdin)
+	} else {
+		confirmed, what = confirmBash(r, o, pre, stdin)
+	}
 	if !confirmed {
 		return false
 	}
@@ -576,4 +622,71 @@ func classTerm(c *gosym.Ctx, data []*sym.Term, cl charClass) *sym.Term {
 		}
 	}
 	return c.B.Or(any...)
+}
+
+// confirmBatch: there is no cmd.exe; a Batch counterexample is re-derived outside the symbolic run: the concrete
+// program is transpiled by the native build and the emitted script is interpreted by BatSem concretely.
+// The verdict is therefore model-level (cmd.exe's documented rules as encoded in oracle/batsem*.go).
+func confirmBatch(r *Run, o eqOutcome, pre map[string]string, stdin string) (bool, string) {
+	files := map[string]string{"main.tsh": o.Src}
+	for p, c := range o.Files {
+		files[p] = c
+	}
+	res, err := r.Native.RunDrv([]DrvReq{{Op: "transpile", Files: files, Main: "main.tsh", Target: "batch"}}, 30*time.Second)
+	if err != nil || len(res) != 1 {
+		return true, "native transpiler crashed or hung: " + fmt.Sprint(err)
+	}
+	n := res[0]
+	if n.Panic != "" {
+		return true, "native Transpile panicked: " + n.Panic
+	}
+	if o.ExpectReject {
+		return !n.HasErr, "native Transpile accepts the illegal program"
+	}
+	if n.HasErr {
+		return true, "native Transpile rejects the well-typed program: " + n.Err
+	}
+	var out string
+	var status int64
+	unsup := ""
+	r.Eng.Explore(func(c *gosym.Ctx) interface{} {
+		defer func() {
+			if rec := recover(); rec != nil {
+				if u, ok := rec.(oracle.BatUnsupported); ok {
+					unsup = u.Msg
+					return
+				}
+				panic(rec)
+			}
+		}()
+		bs := oracle.NewBatShell(c)
+		if stdin != "" {
+			for _, l := range strings.Split(strings.TrimSuffix(stdin, "\n"), "\n") {
+				bs.Stdin = append(bs.Stdin, gosym.Conc(l))
+			}
+		}
+		for p, content := range pre {
+			bs.Files[p] = gosym.Conc(content)
+		}
+		so, st := bs.RunScript(gosym.Conc(n.Script))
+		out, _ = so.Go()
+		if v, ok := st.(int64); ok {
+			status = v
+		}
+		return nil
+	}, gosym.ExploreOpts{Workers: 1})
+	if unsup != "" {
+		return false, "BatSem: " + unsup
+	}
+	var diffs []string
+	if out != o.Expected {
+		diffs = append(diffs, fmt.Sprintf("stdout (cmd.exe model) %q, expected %q", out, o.Expected))
+	}
+	if int(status) != o.ExpCode {
+		diffs = append(diffs, fmt.Sprintf("exit status %d, expected %d", status, o.ExpCode))
+	}
+	if len(diffs) == 0 {
+		return false, ""
+	}
+	return true, strings.Join(diffs, "; ")
 }
